@@ -79,6 +79,24 @@ impl fmt::Display for P2 {
     }
 }
 
+/// Debug through the handle agrees with Debug of the value under every formatter setting (plain, alternate, width,
+/// precision, hex flags): the impl must forward the caller's Formatter, not re-format with a fresh one
+fn same_dbg<A: fmt::Debug, B: fmt::Debug>(a: &A, b: &B) -> bool {
+    format!("{:?}", a) == format!("{:?}", b)
+        && format!("{:#?}", a) == format!("{:#?}", b)
+        && format!("{:12?}", a) == format!("{:12?}", b)
+        && format!("{:<9.2?}", a) == format!("{:<9.2?}", b)
+        && format!("{:#06x?}", a) == format!("{:#06x?}", b)
+}
+fn same_disp<A: fmt::Display, B: fmt::Display>(a: &A, b: &B) -> bool {
+    format!("{}", a) == format!("{}", b) && format!("{:>10}", a) == format!("{:>10}", b) && format!("{:+.3}", a) == format!("{:+.3}", b)
+}
+#[derive(Debug)]
+enum UnionShape<A, B> {
+    First(A),
+    Second(B),
+}
+
 pub trait Pay: Clone + Copy + fmt::Debug + fmt::Display + PartialEq + PartialOrd + 'static {
     fn mk(v: u64) -> Self;
 }
@@ -165,8 +183,8 @@ macro_rules! arc_like {
         match kind {
             0 => {
                 let mut v = six(&a, &b);
-                v.push((format!("{:?}", a) == format!("{:?}", va)) as u64);
-                v.push((format!("{}", a) == format!("{}", va)) as u64);
+                v.push(same_dbg(&a, &va) as u64);
+                v.push(same_disp(&a, &va) as u64);
                 let r: &$P = std::borrow::Borrow::borrow(&a);
                 v.push((r as *const $P == &*a as *const $P && a.as_ref() as *const $P == &*a as *const $P) as u64);
                 v.extend($ord(&a, &b, va, vb));
@@ -175,11 +193,11 @@ macro_rules! arc_like {
             1 => {
                 let oa = Arc::into_raw_offset(a);
                 let ob = Arc::into_raw_offset(b);
-                vec![(oa == ob) as u64, (oa != ob) as u64, (format!("{:?}", oa) == format!("{:?}", va)) as u64]
+                vec![(oa == ob) as u64, (oa != ob) as u64, same_dbg(&oa, &va) as u64]
             }
             2 => {
                 let (ba, bb) = (a.borrow_arc(), b.borrow_arc());
-                vec![(ba == bb) as u64, (ba != bb) as u64, (format!("{:?}", ba) == format!("{:?}", va)) as u64]
+                vec![(ba == bb) as u64, (ba != bb) as u64, same_dbg(&ba, &va) as u64]
             }
             _ => vec![98],
         }
@@ -222,8 +240,8 @@ macro_rules! union_case {
         };
         let x = mk(op[3], op[4]);
         let y = if $same { x.clone() } else { mk(op[5], op[6]) };
-        let want = if op[3] == 0 { format!("First({:?})", <$P as Pay>::mk(op[4])) } else { format!("Second({:?})", (<$P as Pay>::mk(op[4]), 0u8)) };
-        vec![(x == y) as u64, (format!("{:?}", x) == want) as u64]
+        let want: UnionShape<$P, ($P, u8)> = if op[3] == 0 { UnionShape::First(<$P as Pay>::mk(op[4])) } else { UnionShape::Second((<$P as Pay>::mk(op[4]), 0u8)) };
+        vec![(x == y) as u64, same_dbg(&x, &want) as u64]
     }};
 }
 
@@ -248,7 +266,7 @@ macro_rules! hs_case {
                 let b = if $same { a.clone() } else { ThinArc::from_header_and_iter(<$P as Pay>::mk(xb.h), items(&xb).into_iter()) };
                 let mut v = six(&a, &b);
                 let plain = HeaderSlice { header: HeaderWithLength::new(<$P as Pay>::mk(xa.h), xa.s.len()), slice: items(&xa) };
-                v.push((format!("{:?}", a) == format!("{:?}", plain).replace("slice: [", "slice: [")) as u64);
+                v.push(same_dbg(&a, &plain) as u64);
                 v.extend($ord(&a, &b));
                 v
             }
